@@ -37,6 +37,13 @@ def run(res, tier, seed):
                 'verdict': d['model'][:300], 'grid': d.get('context', {}).get('OGRID', '')[:1000], 'seed': seed,
                 'replay_cmd': 'VERIF_SEED=%d VERIF_TIER=%s /verif/check C02' % (seed, tier)})
             break
+    for l, pr in O.failing_props(levels):
+        # the coarse-level operator enters the extrapolated system: a coarse cache that is not the coefficient function at the coarse
+        # nodes changes the equation implicit extrapolation solves
+        res.violation('coarse-operator-coefficients-differ', {
+            'what': pr, 'why': 'the level-1 operator is part of the implicitly extrapolated system (4/3 A_h - 1/3 A_2h on coarse nodes); '
+            'its coefficients must be the coefficient functions evaluated at the coarse nodes', 'config': l['header'], 'grid': l['grid'], 'seed': seed})
+        break
     if dis:
         O.first_row_violation(res, dis, 'operator-row-differs',
                               'the operator differs from the model the C02 identities are about', seed, tier)
